@@ -240,7 +240,7 @@ pub fn miri_slice(r: &mut Report, n: usize, shard: usize) -> usize {
 
 pub fn run(ctx: &Ctx) -> i32 {
     let mut report = ctx.report("C16", "exploration");
-    report.rule = "exhaustive: (style, length, trailing-data) for every representable length of BER-TLV/APDU (0..65535), LLVAR (0..99), LLLVAR (0..999), Fixed<1..17> (payload 0..N) with trailing data of 0/1/300 bytes (and, for the smallest, the largest and a stride of lengths, of 65533 / 65537 bytes) and, for the two-byte-length styles, trailing data of exactly len-1, len, len+1 and byte-swapped-len bytes, and trailing data that begins with one / two copies of the prefix itself; plus every byte string of length 0..3 through the four prefix parsers (styles alternating per input); plus the styles interleaved: the same / the neighbouring length through all 24 orderings of the four styles back to back on one thread. A case is non-trivial when the statement claims a definite outcome for it (all round-trip cases; parser inputs whose prefix bytes are well-formed for the style). Distinct = distinct (style,length,trailing) / (parser,input).".into();
+    report.rule = "exhaustive: (style, length, trailing-data) for every representable length of BER-TLV/APDU (0..65535), LLVAR (0..99), LLLVAR (0..999), Fixed<1..17> (payload 0..N) with trailing data of 0/1/300 bytes (and, for the smallest, the largest and a stride of lengths, of 65533 / 65537 bytes) and, for the two-byte-length styles, trailing data of exactly len-8 .. len+8 and byte-swapped-len bytes, and trailing data that begins with one / two copies of the prefix itself; plus every byte string of length 0..3 through the four prefix parsers (styles alternating per input); plus the styles interleaved: the same / the neighbouring length through all 24 orderings of the four styles back to back on one thread. A case is non-trivial when the statement claims a definite outcome for it (all round-trip cases; parser inputs whose prefix bytes are well-formed for the style). Distinct = distinct (style,length,trailing) / (parser,input).".into();
     report.exhaustive = Some(true);
     report.assumptions = vec![
         "independent shortest-form formulas and prefix parsers of refcodec::codec are the oracle".into(),
@@ -280,7 +280,14 @@ pub fn run(ctx: &Ctx) -> i32 {
                 // payload, one less, one more, and the byte-swapped length): quick on a stride, thorough on all
                 if matches!(st, Style::Ber | Style::Apdu) && (n < 1024 || n + 16 > st.max() || !quick || n % 61 == shard % 61) {
                     let swapped = ((n & 0xff) << 8) | (n >> 8);
-                    for tl in [n.saturating_sub(1), n, n + 1, swapped] {
+                    // exactly the announced payload, the byte-swapped length, and everything from 8 bytes less to 8 bytes more
+                    // (the prefix's own size among the differences)
+                    let mut tls = vec![n, swapped];
+                    for d in 1..=8usize {
+                        tls.push(n.saturating_sub(d));
+                        tls.push(n + d);
+                    }
+                    for tl in tls {
                         check_roundtrip(r, st, n, &big[..tl.min(big.len())]);
                     }
                 }
